@@ -21,7 +21,7 @@ from .c01 import make_config, write_config
 from .core import Relation, err_kind
 
 PROP = "C10"
-CLAIMED = False
+CLAIMED = True
 COQ_MODULES = ["C10_Check", "C10_Proofs"]
 PROPERTY_MODULE = "C10_Property"
 ALLOWED_AXIOMS = []
